@@ -130,28 +130,6 @@ class Tree:
         c = self.canon(joined)
         return c if c is not None else joined
 
-    def tables(self, main):
-        """closure of the path strings the parse can meet: (vfs, resolve table)"""
-        vfs, res = {}, {}
-        todo, seen = [main], set()
-        while todo:
-            s = todo.pop()
-            if s in seen:
-                continue
-            seen.add(s)
-            rel = self.rel_of(s)
-            if rel is None:
-                continue
-            vfs[s] = self.files[rel]
-            for a in self.args.get(rel, []):
-                if a.startswith("/") or a.startswith("\\"):
-                    q = a
-                else:
-                    q = self.resolve(s, a)
-                    res[(s, a)] = q
-                todo.append(q)
-        return vfs, res
-
     def acyclic(self):
         """defence in depth: the include graph over real files has no cycle (cycles abort the process: F12)"""
         edges = {}
